@@ -64,36 +64,77 @@ def run(ctx):
     ctx.rule("R13.2", "exact-match check on native terminal paths; SentFunds lifecycle", 5)
 
     # ---------------------------------------------------------------- R13.1
+    # A transfer constructor is a function that RETURNS a message (SubMsg / CosmosMsg; in the insurance fund and the fee
+    # pool the handler's Response) and branches on the collateral kind.  Only what flows into the returned value counts.
+    # Where the cw20 message is handed in as a parameter (one builder shared by Transfer and TransferFrom) the arms are
+    # compared at every call site, with the argument substituted.
     n = 0
     covered = set()
+    MSG_TYPES = ("Cw20ExecuteMsg", "cosmwasm_std::CosmosMsg", "cosmwasm_std::BankMsg", "cosmwasm_std::WasmMsg")
+
+    def is_constructor(f, crate):
+        rt = f.locals[0]["ty"]
+        if "SubMsg" in rt or "CosmosMsg" in rt:
+            return True
+        return crate in ("margined_insurance_fund", "margined_fee_pool") and "cosmwasm_std::Response" in rt
+
+    def arm_sets(f, mapping):
+        arms_ = {"NativeToken": set(), "Token": set()}
+        try:
+            oks = ix.ok_paths_at(f, mapping) if mapping else ix.ok_paths(f)
+        except Exception:
+            return None
+        for p in oks:
+            k = kind_of_path(ix, p)
+            if k is None:
+                continue
+            rv = sym.subst(p.ret, mapping) if mapping else p.ret
+            for (kind, recv, amt, payer) in direct_transfers(ix, ix.inline(rv)):
+                if (k == "NativeToken") != (kind == "native"):
+                    arms_[k].add(("WRONG-KIND-IN-ARM", kind))
+                covered.add((f.crate, "native" if kind == "native" else ("cw20-transfer-from" if payer is not None else "cw20-transfer")))
+                arms_[k].add((ix.inline(recv), N(ix, amt) if amt is not None else None))
+        return arms_
+
+    def show_arm(a_):
+        return sorted((sym.show(r, 3) if isinstance(r, int) else str(r), norm.show(a) if isinstance(a, tuple) and a and a[0] in ("leaf", "int", "add", "sub", "mul", "div") else str(a)) for (r, a) in a_)
     for crate in ("margined_engine", "margined_insurance_fund", "margined_fee_pool", "margined_common"):
-        for f in sorted(w.crate_fns(crate), key=lambda f: f.pretty):
-            if f.derived or "::_::" in f.pretty or f.kind == "Closure":
+        fns_c = sorted(w.crate_fns(crate), key=lambda f: f.pretty)
+        for f in fns_c:
+            if f.derived or "::_::" in f.pretty or f.kind == "Closure" or not is_constructor(f, crate):
                 continue
             try:
                 oks = ix.ok_paths(f)
             except Exception:
                 continue
-            arms_ = {"NativeToken": set(), "Token": set()}
-            for p in oks:
-                k = kind_of_path(ix, p)
-                if k is None:
-                    continue
-                for v in model.path_values(p):
-                    # message-building helpers (one success path) are seen through
-                    for (kind, recv, amt, payer) in direct_transfers(ix, ix.inline(v)):
-                        if (k == "NativeToken") != (kind == "native"):
-                            arms_[k].add(("WRONG-KIND-IN-ARM", kind))
-                        covered.add((crate, "native" if kind == "native" else ("cw20-transfer-from" if payer is not None else "cw20-transfer")))
-                        arms_[k].add((ix.inline(recv), N(ix, amt) if amt is not None else None))
-            if not arms_["NativeToken"] and not arms_["Token"]:
+            if not any(kind_of_path(ix, p) for p in oks):
                 continue
-            n += 1
-            same = arms_["NativeToken"] == arms_["Token"]
-            ctx.inst("R13.1", "arms-agree:%s" % short_fn(f), same, f.where(),
-                     "native arm builds %s; cw20 arm builds %s" % (
-                         sorted((sym.show(r, 3) if isinstance(r, int) else str(r), norm.show(a) if isinstance(a, tuple) and a and a[0] in ("leaf", "int", "add", "sub", "mul", "div") else str(a)) for (r, a) in arms_["NativeToken"]),
-                         sorted((sym.show(r, 3) if isinstance(r, int) else str(r), norm.show(a) if isinstance(a, tuple) and a and a[0] in ("leaf", "int", "add", "sub", "mul", "div") else str(a)) for (r, a) in arms_["Token"])))
+            msg_params = [i for i in range(f.arg_count) if any(t_ in f.locals[i + 1]["ty"] for t_ in MSG_TYPES)]
+            contexts = []
+            if msg_params:
+                for g in fns_c:
+                    if g.derived or "::_::" in g.pretty or g.kind == "Closure":
+                        continue
+                    try:
+                        gps = ix.ok_paths(g)
+                    except Exception:
+                        continue
+                    seen_bb = set()
+                    for gp in gps:
+                        for e in gp.events:
+                            if e.target is not None and e.target.key == f.key and e.bb not in seen_bb:
+                                seen_bb.add(e.bb)
+                                contexts.append(("%s@%s" % (short_fn(f), short_fn(g)), ix.param_map(f, e.args)))
+            else:
+                contexts.append((short_fn(f), None))
+            for (label, mapping) in contexts:
+                arms_ = arm_sets(f, mapping)
+                if arms_ is None or (not arms_["NativeToken"] and not arms_["Token"]):
+                    continue
+                n += 1
+                same = arms_["NativeToken"] == arms_["Token"]
+                ctx.inst("R13.1", "arms-agree:%s" % label, same, f.where(),
+                         "native arm builds %s; cw20 arm builds %s" % (show_arm(arms_["NativeToken"]), show_arm(arms_["Token"])))
 
     # every transfer kind of every contract is built by some two-armed constructor that was compared (merging or splitting
     # constructors changes the number of instances above, not this set)
